@@ -190,7 +190,7 @@ Inputs == [v : Values, mods : ModSets, fmt : Fmts, cf : CFmts, size : Sizes, etc
 Expressible(i) ==
     /\ (i.form = "entity" => i.fmt = "" /\ i.size = -1 /\ ~i.null /\ ~i.missing /\ i.cf = "s"
                              /\ i.mods # {})
-    /\ (i.v.k # "text" => i.fmt \in {"", "url-quote", "url-quote-plus", "comma-numeric", "pct"})
+    /\ (i.v.k # "text" => i.fmt \in {"", "url-quote", "url-quote-plus", "comma-numeric", "pct", "html-quote"})
     /\ (i.v.k \notin {"text", "num"} => i.mods \subseteq {"html_quote", "newline_to_br"})
     /\ (i.v.k = "num" => i.mods \cap {"sql_quote"} = {})
     /\ (i.fmt = "collection-length" => i.v.k = "text")
